@@ -1,7 +1,7 @@
 #!/usr/bin/env bash
 # usage: try_neutral.sh <patch file> <prop> [<prop> ...]  -- apply a behaviour-preserving patch to /repo, run the quick
 # checks (all must exit 0 without a VIOLATION line), revert.  Evidence files are saved and restored.
-exec 9>/root/scratch/repo.lock; flock 9   # one user of /repo's working tree at a time
+mkdir -p /root/scratch; exec 9>/root/scratch/repo.lock; flock 9   # one user of /repo's working tree at a time
 P="$(realpath "$1")"; shift
 BK="$(mktemp -d /root/scratch/evbk.XXXX)"; cp -a /verif/evidence/. "$BK"/
 git -C /repo apply "$P" || { echo "patch does not apply"; rm -rf "$BK"; exit 3; }
